@@ -278,7 +278,33 @@ Fixpoint compile (a : ast) : option compiled :=
                   c_scope := c_scope cl ++ c_scope cr |}
       | _, _ => None
       end
-  | _ => None                       (* alias with a uid map, subquery marker, outer joins: not in this model *)
+  | Join l r on JLeft =>
+      (* LEFT OUTER JOIN: the WHERE predicates of the right operand go into the ON clause (compiled with the
+         right operand's definitions); a left row without partner appears once, its right columns read NULL *)
+      match compile l, compile r with
+      | Some cl, Some cr =>
+          let ds := c_defs cr ++ c_defs cl in
+          let q := c_q cl in
+          Some {| c_from := FRows (fun d =>
+                              flat_map (fun bl =>
+                                          match filter (fun br => on_holds ds on (bl ++ br)%list
+                                                                  && all_true (c_defs cr) (q_where (c_q cr)) (mk1 (bl ++ br)%list))
+                                                       (base_rows d cr) with
+                                          | [] => [bl]
+                                          | ms => map (fun br => (bl ++ br)%list) ms
+                                          end)
+                                       (base_rows d cl));
+                  c_cols := c_cols cl ++ c_cols cr;
+                  c_q := {| q_select := q_select q ++ q_select (c_q cr); q_part := q_part q; q_group := q_group q;
+                            q_where := q_where q; q_having := q_having q;
+                            q_order := q_order q; q_limit := q_limit q; q_offset := q_offset q;
+                            q_summ := q_summ q |};
+                  c_labels := c_labels cr ++ c_labels cl;
+                  c_defs := ds;
+                  c_scope := c_scope cl ++ c_scope cr |}
+      | _, _ => None
+      end
+  | _ => None                       (* alias with a uid map, subquery marker, full joins: not in this model *)
   end.
 
 
@@ -424,6 +450,24 @@ Fixpoint flat_ok (a : ast) : bool :=
                  negb (q_summ (c_q c)) && no_limit (c_q c) && is_nil (q_order (c_q c)) && is_nil (q_part (c_q c))
                  && ds_elem_b (c_defs c) in
              plain cl && plain cr
+             && scoped (c_scope cl ++ c_scope cr) on
+             && disjointb (c_scope cl) (ast_uids r) && disjointb (c_scope cr) (ast_uids l)
+             && disjointb (c_cols cl) (c_cols cr)
+             && disjointb (map fst (c_defs cl)) (map fst (c_defs cr))
+             && disjointb (q_select (c_q cl)) (map fst (c_labels cr))
+         | _, _ => false
+         end
+  | Join l r on JLeft =>
+      (* as for the inner join; in addition the right operand has no computed column: an inlined definition
+         would be evaluated on the NULL padding of a left row without partner (finding F37) *)
+      flat_ok l && flat_ok r && elem on
+      && match compile l, compile r with
+         | Some cl, Some cr =>
+             let plain := fun c : compiled =>
+                 negb (q_summ (c_q c)) && no_limit (c_q c) && is_nil (q_order (c_q c)) && is_nil (q_part (c_q c))
+                 && ds_elem_b (c_defs c) in
+             plain cl && plain cr
+             && forallb (fun d => match snd d with ECol _ => true | _ => false end) (c_defs cr)
              && scoped (c_scope cl ++ c_scope cr) on
              && disjointb (c_scope cl) (ast_uids r) && disjointb (c_scope cr) (ast_uids l)
              && disjointb (c_cols cl) (c_cols cr)
